@@ -34,7 +34,7 @@ ASSUMPTIONS = [
   "height-field pairs: only (a) and (b) are decidable here (non-convex terrain has no support function)",
   "pairs whose centres coincide (normal undefined) and penetrations deeper than half the smaller geom are not judged by (b),(c)",
 ]
-BUDGET = {"quick": 150, "thorough": 1500}
+BUDGET = {"quick": 450, "thorough": 2400}
 
 EPS = 1e-3
 TOL = {"prim": dict(gap=3e-5, surf=3e-5, closed=2e-5, maxi=1e-4), "ccd": dict(gap=3e-4, surf=1e-3, closed=2e-4, maxi=2e-3)}
